@@ -442,7 +442,9 @@ def run(chk):
             return z3.BoolVal(p.kind == "raise" and p.raised(e, "GuppyTypeError"))
         chk.prove_paths(f"_synthesize_binary[{scenario}]:left-dunder(l,r)-then-reflected(r,l)-then-error", paths, post, func=f"{EC}:ExprSynthesizer._synthesize_binary")
 
-    chk.must_fail("twin:floor-division-spec-is-not-truncation", [z3.BitVec("x1", 64) != 0],
+    # (operands restricted to a small range: the witness -7 // 2 lies inside, and the solver answers at once
+    # instead of occasionally running out of its budget on a 64-bit signed division)
+    chk.must_fail("twin:floor-division-spec-is-not-truncation", [z3.BitVec("x1", 64) != 0] + [c for v in (z3.BitVec("x0", 64), z3.BitVec("x1", 64)) for c in (v >= -16, v <= 16)],
                   G._floordiv_s(z3.BitVec("x0", 64), z3.BitVec("x1", 64))[0] == z3.BitVec("x0", 64) / z3.BitVec("x1", 64))
     chk.expected_min_obligations = 150
     chk.not_covered += ["float // and % against CPython's fmod-based algorithm (z3 FP rem out of reach): only the Guppy body floor(a/b) is unfolded",
